@@ -239,6 +239,9 @@ func checkC16(c C16Case, env *Env) *Violation {
 			}
 		}
 	}
+	if linesOnly {
+		return nil
+	}
 	// part B: in a file, valid lines raise no annotation warning (type 18)
 	var texts, kinds []string
 	for _, l := range c.Lines {
